@@ -148,7 +148,7 @@ package jlib
 // (always a list, possibly empty - $single inspects its type), $reduce needs a two-parameter function.
 //@ func clamp
 //@   props C15 C09
-//@   ensures [C15:clamped] result == (n < min ? min : (n > max ? max : n))
+//@   ensures [C15+C09:clamped] result == (n < min ? min : (n > max ? max : n))
 //@   assigns nothing
 //@ func Map
 //@   props C15 C09
@@ -164,7 +164,7 @@ package jlib
 //@   opaque-arith
 //@   requires f != nil && ifaceable(v)
 //@   ensures [C15:error-has-no-result] r1 != nil ==> r0 == nil
-//@   ensures [C15:always-a-list] r1 == nil ==> typeis(r0, "[]interface {}")
+//@   ensures [C15+C09:always-a-list] r1 == nil ==> typeis(r0, "[]interface {}")
 //@   atcall[C15:value-index-array-trimmed-to-arity] iface:Call#0 requires callee_recv == f && len(callee_arg1) == argc && 1 <= argc && argc <= 3 && callee_arg1[0] == item
 //@   atif[C15:truthy-members-kept] "Boolean(res)" iff ufb_truthy(ret("iface:Call#0", 0))
 //@   loop 0 invariant 0 <= i && !wraps(v) && (valid(v) ==> (arrKind(kind(v)) && canif(v))) && 1 <= argc && argc <= 3
@@ -184,8 +184,8 @@ package jlib
 // has no n-th code point. Substring, Pad and the separators of formatNumber slice strings only at such offsets.
 //@ func positionOfNthRune
 //@   props C16 C09
-//@   ensures [C16:nth-code-point] (0 <= n && n < runeCount(s)) ==> (0 <= result && result < len(s) && runeStart(s, result) && runesBefore(s, result) == n)
-//@   ensures [C16:beyond-the-end] (n < 0 || n >= runeCount(s)) ==> result == -1
+//@   ensures [C16+C09:nth-code-point] (0 <= n && n < runeCount(s)) ==> (0 <= result && result < len(s) && runeStart(s, result) && runesBefore(s, result) == n)
+//@   ensures [C16+C09:beyond-the-end] (n < 0 || n >= runeCount(s)) ==> result == -1
 //@   assigns nothing
 //@   loop 0 invariant 0 <= $pos && $pos <= len(s) && runeStart(s, $pos) && i == runesBefore(s, $pos) && (n < 0 || i <= n)
 //@ func abs
@@ -302,8 +302,8 @@ package jlib
 //@   opaque-arith
 //@   requires forall k in [0, len(runes)): (48 <= runes[k] && runes[k] <= 57)
 //@   ensures len(result) == len(runes)
-//@   ensures [C17:group-numbers-not-negative] forall k in [0, len(result)): result[k] >= 0
-//@   ensures [C17:leading-nonzero-digit-is-positive] (len(runes) > 0 && runes[0] != 48) ==> (forall k in [0, len(result)): result[k] >= 1)
+//@   ensures [C17+C09:group-numbers-not-negative] forall k in [0, len(result)): result[k] >= 0
+//@   ensures [C17+C09:leading-nonzero-digit-is-positive] (len(runes) > 0 && runes[0] != 48) ==> (forall k in [0, len(result)): result[k] >= 1)
 //@   assigns nothing
 //@   loop 0 invariant -1 <= $i0 && len(nums) == len(runes) && local(nums) && (forall k in [0, len(nums)): nums[k] >= 0) && ((len(runes) > 0 && runes[0] != 48) ==> (forall k in [0, $i0 + 1): nums[k] >= 1))
 //@   loop 1 invariant 0 <= j && j <= i + 1 && 0 <= i && i < len(runes) && len(nums) == len(runes) && local(nums) && (forall k in [0, len(nums)): nums[k] >= 0) && ((len(runes) > 0 && runes[0] != 48) ==> ((forall k in [0, i): nums[k] >= 1) && (j > 0 ==> nums[i] >= 1)))
@@ -330,11 +330,11 @@ package jlib
 //@   props C17 C09
 //@   opaque-arith
 //@   requires fn != nil
-//@   ensures [C17:error-has-no-matches] r1 != nil ==> len(r0) == 0
+//@   ensures [C17+C09:error-has-no-matches] r1 != nil ==> len(r0) == 0
 //@   ensures [C17:limit-respected] (r1 == nil && limit >= 0) ==> len(r0) <= limit
 //@   ensures [C17:all-matches-without-limit] (r1 == nil && limit < 0) ==> r0 == ret("callMatchFunc#0", 0)
-//@   ensures [C17:offsets-ascending-within-source] r1 == nil ==> (forall k in [0, len(r0)): (0 <= r0[k].indexes[0] && r0[k].indexes[0] <= r0[k].indexes[1] && r0[k].indexes[1] <= len(s)))
-//@   ensures [C17:matches-do-not-overlap] r1 == nil ==> (forall k in [1, len(r0)): r0[k - 1].indexes[1] <= r0[k].indexes[0])
+//@   ensures [C17+C09+C16:offsets-ascending-within-source] r1 == nil ==> (forall k in [0, len(r0)): (0 <= r0[k].indexes[0] && r0[k].indexes[0] <= r0[k].indexes[1] && r0[k].indexes[1] <= len(s)))
+//@   ensures [C17+C09+C16:matches-do-not-overlap] r1 == nil ==> (forall k in [1, len(r0)): r0[k - 1].indexes[1] <= r0[k].indexes[0])
 //@   assigns heap
 //@   loop 0 invariant -1 <= $i0 && 0 <= end && end <= len(s) && alloc(matches)
 //@   loop 0 invariant forall k in [0, $i0 + 1): (0 <= matches[k].indexes[0] && matches[k].indexes[0] <= matches[k].indexes[1] && matches[k].indexes[1] <= len(s) && matches[k].indexes[1] <= end)
@@ -475,18 +475,41 @@ package jlib
 //@ func eachMap
 //@   props C14 C09
 //@   requires fn != nil && kind(v) == 21 && canif(v)
+//@   ensures r1 != nil ==> len(r0) == 0
+//@   loop 0 calls [C14:every-member-visited-once] iface:Call#0
+//@   atcall[C14:value-name-object-trimmed-to-arity] iface:Call#0 requires callee_recv == fn && arr(callee_arg1) == arr(argv) && len(callee_arg1) == len(argv) && (len(argv) >= 1 ==> argv[0] == mapat(v, k)) && (len(argv) >= 2 ==> argv[1] == k) && (len(argv) >= 3 ==> argv[2] == v)
+//@   atif[C14:absent-results-dropped] "res.IsValid()" iff valid(ret("iface:Call#0", 0))
+//@   loop 0 invariant -1 <= $i0 && alloc(argv)
+//@   loop 1 invariant -1 <= $i1 && alloc(argv) && ($i1 >= 0 ==> argv[0] == mapat(v, k)) && ($i1 >= 1 ==> argv[1] == k) && ($i1 >= 2 ==> argv[2] == v)
 //@ func eachStruct
 //@   props C14 C09
 //@   requires fn != nil && kind(v) == 25 && canif(v)
+//@   ensures r1 != nil ==> len(r0) == 0
+//@   atcall[C14:value-name-object-trimmed-to-arity] iface:Call#0 requires callee_recv == fn && arr(callee_arg1) == arr(argv) && len(callee_arg1) == len(argv) && (len(argv) >= 1 ==> argv[0] == fieldat(v, i)) && (len(argv) >= 3 ==> argv[2] == v)
+//@   atif[C14:absent-results-dropped] "res.IsValid()" iff valid(ret("iface:Call#0", 0))
+//@   loop 0 invariant 0 <= i && size == rvnumfield(v) && alloc(argv)
+//@   loop 1 invariant -1 <= $i1 && alloc(argv) && 0 <= i && i < size && ($i1 >= 0 ==> argv[0] == fieldat(v, i)) && ($i1 >= 2 ==> argv[2] == v)
 //@ func Sift
 //@   props C14 C09
 //@   requires fn != nil && ifaceable(obj)
+//@   ensures [C14:error-has-no-result] r1 != nil ==> r0 == nil
 //@ func siftMap
 //@   props C14 C09
 //@   requires fn != nil && kind(v) == 21 && canif(v)
+//@   ensures r1 != nil ==> r0 == nil
+//@   loop 0 calls [C14:every-member-visited-once] iface:Call#0 when ret("AsString#0", 1) && valid(mapat(v, k)) && canif(mapat(v, k))
+//@   atcall[C14:value-name-object-trimmed-to-arity] iface:Call#0 requires callee_recv == fn && arr(callee_arg1) == arr(argv) && len(callee_arg1) == len(argv) && (len(argv) >= 1 ==> argv[0] == mapat(v, k)) && (len(argv) >= 2 ==> argv[1] == k) && (len(argv) >= 3 ==> argv[2] == v)
+//@   atif[C14:truthy-members-kept] "Boolean(res)" iff ufb_truthy(ret("iface:Call#0", 0))
+//@   loop 0 invariant -1 <= $i0 && alloc(argv)
+//@   loop 1 invariant -1 <= $i1 && alloc(argv) && val == mapat(v, k) && ($i1 >= 0 ==> argv[0] == mapat(v, k)) && ($i1 >= 1 ==> argv[1] == k) && ($i1 >= 2 ==> argv[2] == v)
 //@ func siftStruct
 //@   props C14 C09
 //@   requires fn != nil && kind(v) == 25 && canif(v)
+//@   ensures r1 != nil ==> r0 == nil
+//@   atcall[C14:value-name-object-trimmed-to-arity] iface:Call#0 requires callee_recv == fn && arr(callee_arg1) == arr(argv) && len(callee_arg1) == len(argv) && (len(argv) >= 1 ==> argv[0] == fieldat(v, i)) && (len(argv) >= 3 ==> argv[2] == v)
+//@   atif[C14:truthy-members-kept] "Boolean(res)" iff ufb_truthy(ret("iface:Call#0", 0))
+//@   loop 0 invariant 0 <= i && size == rvnumfield(v) && alloc(argv)
+//@   loop 1 invariant -1 <= $i1 && alloc(argv) && 0 <= i && i < size && val == fieldat(v, i) && ($i1 >= 0 ==> argv[0] == fieldat(v, i)) && ($i1 >= 2 ==> argv[2] == v)
 //@ func Keys
 //@   props C14 C09
 //@   requires ifaceable(obj)
@@ -498,6 +521,9 @@ package jlib
 //@   requires kind(v) == 21 && canif(v)
 //@ func keysMapFast
 //@   props C14 C09
+//@   precise-append
+//@   ensures [C14:only-member-names] forall j in [0, len(result)): has(m, result[j])
+//@   loop 0 invariant forall j in [0, len(results)): (visited(results[j]) && has(m, results[j]))
 //@ func keysStruct
 //@   props C14 C09
 //@   requires kind(v) == 25 && canif(v)
@@ -511,15 +537,25 @@ package jlib
 //@ func mergeMap
 //@   props C14 C09
 //@   requires dest != nil && kind(src) == 21 && canif(src)
+//@   atcall[C14:members-of-the-later-object-written-over] mergeMapFast#0 requires callee_dest == dest && callee_src == ret("toInterfaceMap#0", 0)
+//@   atcall toInterfaceMap#0 requires callee_v == src
 //@ func mergeMapFast
 //@   props C14 C09
 //@   requires dest != nil
+//@   ensures [C14:later-object-takes-precedence] dest != src ==> (forall k in keys(src): (src[k] != nil ==> (has(dest, k) && dest[k] == src[k])))
+//@   ensures [C14:other-members-kept] dest != src ==> (forall k in keys(old(dest)): (has(dest, k) && ((!has(src, k) || src[k] == nil) ==> dest[k] == old(dest[k]))))
+//@   loop 0 invariant dest != nil && (dest != src ==> (forall k in keys(src): (visited(k) && src[k] != nil) ==> (has(dest, k) && dest[k] == src[k])))
+//@   loop 0 invariant dest != src ==> (forall k in keys(old(dest)): (has(dest, k) && ((!has(src, k) || src[k] == nil || !visited(k)) ==> dest[k] == old(dest[k]))))
 //@ func mergeStruct
 //@   props C14 C09
 //@   requires dest != nil && kind(src) == 25 && canif(src)
 //@ func mergeArray
 //@   props C14 C09
 //@   requires dest != nil && arrKind(kind(src)) && canif(src)
+//@   atcall[C14:objects-merged-first-to-last-into-the-result] mergeMap#0 requires callee_dest == dest && callee_src == res(at(src, i))
+//@   atcall[C14:objects-merged-first-to-last-into-the-result] mergeStruct#0 requires callee_dest == dest && callee_src == res(at(src, i))
+//@   loop 0 invariant 0 <= i && i <= rvlen(src)
+//@   loop 0 decreases rvlen(src) - i
 //@ func Spread
 //@   props C14 C09
 //@   requires ifaceable(v)
@@ -592,7 +628,7 @@ package jlib
 //@   requires arrKind(kind(vs)) && canif(vs)
 //@   requires 0 <= length && length <= rvlen(vs)
 //@   requires kind(results) == 23 && canif(results)
-//@   ensures [C15:members-in-order] kind(results) == 23 && canif(results) && rvlen(results) == old(rvlen(results)) + length
+//@   ensures [C15+C09:members-in-order] kind(results) == 23 && canif(results) && rvlen(results) == old(rvlen(results)) + length
 //@   loop 0 calls [C15:every-member-appended] reflect.Append#0
 //@   atcall[C15:member-of-the-position] reflect.Append#0 requires callee_arg0 == results && len(callee_arg1) == 1 && callee_arg1[0] == at(vs, i)
 //@   loop 0 invariant 0 <= i && i <= length && kind(results) == 23 && canif(results) && rvlen(results) == old(rvlen(results)) + i
